@@ -105,7 +105,8 @@ pub fn maybe_big_claim(rng: &mut Rng, claims: &mut Value) {
     if !rng.chance(1, 40) {
         return;
     }
-    let n = *rng.pick(&[50_000usize, 66_000, 100_000, 140_000]);
+    // one in ten of them beyond a mebibyte (an embedded document)
+    let n = if rng.chance(1, 10) { 1_200_000usize } else { *rng.pick(&[50_000usize, 66_000, 100_000, 140_000]) };
     let mut s = String::with_capacity(n);
     while s.len() < n {
         s.push_str("iVBORw0KGgoAAAANSUhEUgAAAAEAAAABCAYAAAAfFcSJAAAADUlEQVR42mNk");
@@ -455,6 +456,15 @@ pub fn gen_c02(rng: &mut Rng, tier: Tier) -> MsgScn {
         }
         if rng.chance(1, 3) {
             c.mirror = Some(rng.pick(&["header", "unprotected"]).to_string());
+        }
+        cases.push(c);
+    }
+    // a directory that refuses (panics) — alone, and for a token MAC'ed with the empty key
+    for k in 0..2 {
+        let mut c = plain(main.clone(), rand_fmt(rng));
+        c.resolver = Resolver::Refuses;
+        if k == 1 {
+            c.faults.push(Fault::AlgRewrite(AlgMode::HsWithPub { kid: "ecA".into(), form: PubForm::Empty, hs: rng.pick(&["HS256", "HS384", "HS512"]).to_string() }));
         }
         cases.push(c);
     }
